@@ -4,6 +4,7 @@ import (
 	"fmt"
 	"math"
 	"math/big"
+	"math/bits"
 
 	ds "github.com/sealdice/dicescript"
 	"golang.org/x/exp/rand"
@@ -74,6 +75,17 @@ var c05Small = func() []int64 {
 	return append(s, 37, 49, 63, 64, 65, 100, 127, 128, 129, 1000)
 }()
 
+// 1.5·2^j for every j: the sizes where a sampler that silently works on fewer bits than the
+// size needs (e.g. the high 32 bits for n < 2^31) puts 3/4 instead of 2/3 of the mass on the
+// lower two thirds
+var c05Mid = func() []int64 {
+	var s []int64
+	for j := uint(6); j <= 61; j++ {
+		s = append(s, 3<<j)
+	}
+	return s
+}()
+
 var c05Large = []int64{(1 << 31) - 1, (1 << 31) + 1, (1 << 32) - 1, (1 << 32) + 1, 3 << 40, (1 << 62) - 1, (1 << 62) + 1, 3 << 61, 5 << 60, 7 << 60, (1 << 63) - 2, math.MaxInt64 - 1, 1 << 62, 1 << 40, 6 << 60, (1 << 63) - (1 << 61)}
 
 var c05Pair = []int64{2, 3, 6, 10}
@@ -97,6 +109,14 @@ func c05Plan(tier string) []c05Test {
 		for _, n := range c05Large {
 			t = append(t, c05Test{"buckets", n, r})
 			t = append(t, c05Test{"consume", n, r})
+		}
+		if r%4 == 0 {
+			for _, n := range c05Mid {
+				t = append(t, c05Test{"buckets", n, r})
+			}
+		}
+		if r%4 == 1 {
+			t = append(t, c05Test{"vmpair", 6, r}, c05Test{"vmpair", 10, r})
 		}
 		for _, n := range c05Pair {
 			t = append(t, c05Test{"pair1", n, r}, c05Test{"pair2", n, r})
@@ -172,6 +192,45 @@ func c05Stat(t c05Test, draws int, seed uint64) (float64, string) {
 		}
 		_, p := chi2p(obs, exp)
 		return p, ""
+	case "vmpair":
+		// successive dice of one seeded context, rolled at top level, inside a function, inside
+		// a computed value and by RunExpr, must be independent draws of the same generator
+		vm := Cfg{Seed: seed | 1}.NewVM()
+		if err := vm.Run(fmt.Sprintf("func fd() { d%d }; &cd = d%d; 0", n, n)); err != nil {
+			return 0, "setup failed: " + err.Error()
+		}
+		cells := int(n * n)
+		obs := make([]float64, cells)
+		exp := make([]float64, cells)
+		cnt := 0
+		prev := int64(0)
+		rounds := draws / 40
+		for i := 0; i < rounds; i++ {
+			if err := vm.Run(fmt.Sprintf("[d%d, fd(), cd, d%d, fd(), cd]", n, n)); err != nil {
+				return 0, "run failed: " + err.Error()
+			}
+			arr, ok := vm.Ret.ReadArray()
+			if !ok || len(arr.List) != 6 {
+				return 0, "unexpected result " + vm.Ret.ToString()
+			}
+			for _, e := range arr.List {
+				v, _ := e.ReadInt()
+				r := int64(v)
+				if r < 1 || r > n {
+					return 0, fmt.Sprintf("d%d through the VM returned %d", n, r)
+				}
+				if prev != 0 {
+					obs[(prev-1)*n+(r-1)]++
+					cnt++
+				}
+				prev = r
+			}
+		}
+		for i := range exp {
+			exp[i] = float64(cnt) / float64(cells)
+		}
+		_, p := chi2p(obs, exp)
+		return p, ""
 	case "pair1", "pair2":
 		lag := 1
 		if t.kind == "pair2" {
@@ -220,15 +279,17 @@ func mul64(a, b uint64) (hi, lo uint64) {
 
 func div128(hi, lo, d uint64) uint64 {
 	// hi < d is guaranteed here (quotient < 32)
-	x := new(big.Int).SetUint64(hi)
-	x.Lsh(x, 64)
-	x.Add(x, new(big.Int).SetUint64(lo))
-	x.Div(x, new(big.Int).SetUint64(d))
-	return x.Uint64()
+	q, _ := bits.Div64(hi, lo, d)
+	return q
 }
 
 func c05Draws(tier, kind string) int {
 	switch kind {
+	case "vmpair":
+		if tier == "thorough" {
+			return 400000
+		}
+		return 80000
 	case "cells", "pair1", "pair2":
 		if tier == "thorough" {
 			return 5000000
